@@ -254,6 +254,7 @@ class Gen:
         self.opportunities = 0
         self.mutated = None
         self.irs = schema()
+        self.buf = False          # inside an internally tagged / untagged enum (serde reads from buffered content there)
         self.full = None           # None | 'all' | 'none'  (corpus documents)
 
     def loose(self, num=1, den=4):
@@ -425,6 +426,15 @@ class Gen:
             if ir['tag'] and not self.loose(1, 3):
                 tag = (ir['tag'][0], ('s', ir['tag'][1]))
             return self.g_fields(ir['fields'], depth, tag)
+        outer_buf = self.buf
+        if ir['rep'] in ('internal', 'untagged'):
+            self.buf = True
+        try:
+            return self.g_enum(ir, name, depth, outer_buf)
+        finally:
+            self.buf = outer_buf
+
+    def g_enum(self, ir, name, depth, outer_buf):
         vs = ir['variants']
         k = self.rr.get(name, 0)
         self.rr[name] = k + 1
@@ -451,11 +461,16 @@ class Gen:
                 if r == 0:
                     tagv = ('s', nm + '-x')
                 elif r == 1:
-                    tagv = self.rng.choice([('i', 0), ('n',), ('a', [])])
+                    # (an in-range unsigned integer would be accepted as the variant index)
+                    tagv = self.rng.choice([('i', len(vs) + self.rng.below(3)), ('i', -1), ('f', (0, 0)), ('n',), ('a', []), ('b', True)])
+                    if not outer_buf and self.rng.chance(1, 2):
+                        tagv = ('i', vs.index(v))      # a variant index is refused when the enum is read from the text
                 else:
                     fields = v.get('fields', [])
                     return self.g_fields(fields, depth, None)          # tag missing
             fields = v.get('fields', [])
+            if self.mutated != 'bad-tag' and outer_buf and self.loose(1, 4):
+                tagv = ('i', vs.index(v))          # the tag as variant index
             return self.g_fields(fields, depth, (ir['tag'], tagv), tag_first=not self.loose(1, 2))
         # untagged
         if v['shape'] == 'newtype':
@@ -706,12 +721,27 @@ def init_problem(rng, shape=None):
     nloc = rng.range(4, 7)
     pos = [(rng.range(0, 30), rng.range(0, 30)) for _ in range(nloc)]
     horizon = rng.choice([2000, 4000, 10000])
+    # locations several jobs share: the shift start (index 0: the writer merges a job served first there into the departure
+    # stop, a job served last there into the arrival stop), the shift end when it differs, and a hub in the middle
+    hub = rng.range(1, nloc - 1)
+    end_loc = rng.choice([0, 0, 0, hub, rng.range(1, nloc - 1)])
+    at_depot = rng.chance(3, 5)
 
     def win(a, b):
         return [rfc(EPOCH0 + a), rfc(EPOCH0 + b)]
 
+    def any_loc():
+        r = rng.below(10)
+        if at_depot and r < 3:
+            return 0
+        if r < 5:
+            return hub
+        if r < 6:
+            return end_loc
+        return rng.range(1, nloc - 1)
+
     def place(loc=None, tag=None, times='rand', dur=None):
-        p = {'location': {'index': rng.range(1, nloc - 1) if loc is None else loc},
+        p = {'location': {'index': any_loc() if loc is None else loc},
              'duration': rng.choice([0, 10, 60, 300]) if dur is None else dur}
         if times == 'rand':
             r = rng.below(5)
@@ -769,21 +799,31 @@ def init_problem(rng, shape=None):
                 place(loc=loc, tag='slow' + jid, times=[win(0, horizon)], dur=rng.choice([300, 600])),
                 place(loc=loc, tag='fast' + jid, times=[win(a, a + rng.range(200, 1500))], dur=rng.choice([0, 10, 60]))],
                 'demand': dem}]})
+    if shape is None and at_depot:
+        # a job that has to be served FIRST, at the start location, and one that is served late at the end location
+        if rng.chance(2, 3):
+            jobs.append({'id': 'first', 'deliveries': [{'places': [place(loc=0, times=[win(0, rng.choice([0, 30, 200]))], dur=rng.choice([0, 10, 60]))],
+                                                        'demand': [1]}]})
+        if rng.chance(1, 3):
+            jobs.append({'id': 'first2', 'pickups': [{'places': [place(loc=0, times=[win(0, 100)], dur=10)], 'demand': [1]}]})
+        if rng.chance(1, 3):
+            jobs.append({'id': 'last', 'deliveries': [{'places': [place(loc=end_loc, times=[win(horizon // 2, horizon)], dur=10)], 'demand': [1]}]})
     vehicles = []
     nt = rng.choice([1, 1, 2])
     for k in range(nt):
         shift = {'start': {'earliest': rfc(EPOCH0), 'location': {'index': 0}}}
         if rng.chance(3, 4):
-            shift['end'] = {'latest': rfc(EPOCH0 + horizon), 'location': {'index': 0}}
+            shift['end'] = {'latest': rfc(EPOCH0 + horizon), 'location': {'index': end_loc}}
         vehicles.append({'typeId': 'type%d' % (k + 1), 'vehicleIds': ['v%d_%d' % (k + 1, i + 1) for i in range(rng.choice([1, 2]))],
                          'profile': {'matrix': 'car'}, 'costs': {'fixed': 20.0, 'distance': 1.0, 'time': 1.0},
                          'shifts': [shift], 'capacity': [rng.choice([3, 10])]})
     problem = {'plan': {'jobs': jobs}, 'fleet': {'vehicles': vehicles, 'profiles': [{'name': 'car'}]}}
     # every matrix index must be used (E1504 compares the number of distinct locations with the matrix size)
     places = [p for j in jobs for k in ('pickups', 'deliveries', 'services') for t in j.get(k, []) for p in t['places']]
-    used = sorted({0} | {p['location']['index'] for p in places})
+    ends = [v['shifts'][0]['end'] for v in vehicles if 'end' in v['shifts'][0]]
+    used = sorted({0} | {p['location']['index'] for p in places} | {e['location']['index'] for e in ends})
     remap = {old: new for new, old in enumerate(used)}
-    for p in places:
+    for p in places + ends:
         p['location'] = {'index': remap[p['location']['index']]}
     pos = [pos[i] for i in used]
     tt = [abs(a[0] - b[0]) * 10 + abs(a[1] - b[1]) * 10 for a in pos for b in pos]
